@@ -349,6 +349,15 @@ func (X *Exec) checkGuarded(fr *Frame, st *State, a *Addr, write bool, pos token
 			}
 			n, _ := X.E.LockHeap(a.ObjT, mu)
 			cur := ts.Select(X.heap(st, n, ArraySort(SInt, SInt)), a.Ref)
+			// a mutex held through a pointer field (mu *sync.Mutex): the lock is identified by the pointer
+			for k := 0; k < sT.NumFields(); k++ {
+				if sT.Field(k).Name() == mu {
+					if _, isPtr := sT.Field(k).Type().Underlying().(*types.Pointer); isPtr {
+						fa := &Addr{Kind: AddrObj, Ref: a.Ref, ObjT: a.ObjT, T: sT.Field(k).Type(), Path: []PathElem{{Field: k}}}
+						cur = ts.Select(X.heap(st, "LK|ptr", ArraySort(SInt, SInt)), X.load(st, fa))
+					}
+				}
+			}
 			var held *Term
 			if write {
 				held = ts.Eq(cur, ts.IntLit(1))
